@@ -40,6 +40,8 @@ type lkRoute struct {
 	Noise   int       `json:"noise,omitempty"`  // free-text / multibyte lines before the annotations
 	File    string    `json:"file"`
 	Pkg2    bool      `json:"pkg2,omitempty"` // the route's controller lives in package api2, whose ApiError is a plain struct
+	// ExtraRoute, when set, is written as a second @Route line after the first (Route is the first and the one that counts)
+	ExtraRoute string `json:"extraRoute,omitempty"`
 }
 
 type lkCtrl struct {
@@ -306,7 +308,7 @@ func lkGenRoute(t *rapid.T, idx int, file string) lkRoute {
 }
 
 var lkPertKinds = []string{"dropAnn", "dupAnn", "renameRef", "retarget", "strayAnn", "aliasUnknown", "aliasDup", "dupTemplateName", "unboundTemplateName",
-	"aliasWrongType", "prefixParam", "pathNotInTemplate", "extraParam", "twoBodies", "bodyAndForm", "retype", "bodyPrimitive", "results", "verb", "changeKind", "neutralAlias", "secCollision", "reorderAnns", "bodyAndForm", "secondBinding", "aliasWrongTypeAll", "aliasWrongTypeGhost", "siblingConflict", "dropTag", "oddNameAliased", "oddNameUnbound", "namesakeNotError"}
+	"aliasWrongType", "prefixParam", "pathNotInTemplate", "extraParam", "twoBodies", "bodyAndForm", "retype", "bodyPrimitive", "results", "verb", "changeKind", "neutralAlias", "secCollision", "reorderAnns", "bodyAndForm", "secondBinding", "aliasWrongTypeAll", "aliasWrongTypeGhost", "siblingConflict", "dropTag", "oddNameAliased", "oddNameUnbound", "namesakeNotError", "twoRoutes"}
 
 func lkGen(t *rapid.T) lkModel {
 	var m lkModel
@@ -506,6 +508,17 @@ func lkApply(m lkModel) ([]lkCtrl, []string) {
 				r.Anns[j].Alias = b
 				applied = append(applied, "aliasDup:"+b)
 			}
+		case "twoRoutes":
+			// a second @Route on the method (gleece warns about the duplicate): the first one is the route, so the rules are
+			// about the first one - whether the good template comes first (neutral) or the bogus one (breaks the rules)
+			if r.ExtraRoute == "" {
+				if p.A%2 == 0 {
+					r.ExtraRoute = "/bogus/{nope}"
+				} else {
+					r.ExtraRoute, r.Route = r.Route, "/bogus/{nope}"
+				}
+				applied = append(applied, fmt.Sprintf("twoRoutes:bogusFirst=%v", p.A%2 == 1))
+			}
 		case "namesakeNotError":
 			// the controller moves to a second package that declares its own ApiError - a plain struct. A route returning
 			// it there is ill-formed, whatever api.ApiError (which does embed error) is
@@ -674,7 +687,7 @@ func lkApply(m lkModel) ([]lkCtrl, []string) {
 			}
 		case "retype":
 			if i := annIdx(func(a lkAnn) bool { return a.Kind != "Body" && paramIdx(a.Ref) >= 0 }, p.A); i >= 0 {
-				nt := []string{"models.Payload", "map[string]string", "error", "[]models.Payload", "*models.Payload", "[]string"}[p.B%6]
+				nt := []string{"models.Payload", "map[string]string", "error", "[]models.Payload", "*models.Payload", "[]string", "models.PayloadAlias"}[p.B%7]
 				r.Params[paramIdx(r.Anns[i].Ref)].T = nt
 				applied = append(applied, fmt.Sprintf("retype:%s(%s:%s)", r.Anns[i].Kind, r.Anns[i].Ref, nt))
 			}
@@ -723,6 +736,9 @@ func (r lkRoute) docLines() []string {
 	}
 	lines = append(lines, r.PreDoc...)
 	lines = append(lines, "// @Method("+r.Verb+")", "// @Route("+r.Route+")")
+	if r.ExtraRoute != "" {
+		lines = append(lines, "// @Route("+r.ExtraRoute+")")
+	}
 	for _, a := range r.Anns {
 		l := "// @" + a.Kind + "(" + a.Ref
 		if a.AliasRaw != "" {
@@ -778,6 +794,7 @@ func lkProject(ctrls []lkCtrl, noise []int) *projgen.Project {
 		{Name: "Payload", Pkg: "models", File: "models.go", Kind: "struct", Fields: []projgen.Field{{Name: "Name", Type: projgen.Prim("string")}, {Name: "N", Type: projgen.Prim("int")}}},
 		{Name: "Color", Pkg: "models", File: "models.go", Kind: "enum", Base: "string", Consts: []projgen.EnumConst{{Name: "Red", Value: `"red"`}, {Name: "Blue", Value: `"blue"`}}},
 		{Name: "Ident", Pkg: "models", File: "models.go", Kind: "alias", Base: "string"},
+		{Name: "PayloadAlias", Pkg: "models", File: "models.go", Kind: "alias", Base: "Payload"}, // a defined type over a struct: not a primitive alias
 		{Name: "ApiError", Pkg: "api", File: "errors.go", Kind: "struct", EmbedsError: true, Fields: []projgen.Field{{Name: "Code", Type: projgen.Prim("int")}}},
 	}
 	declared := map[string]bool{"apiKeyAuth": true}
